@@ -190,10 +190,12 @@ fn run_real(c: &Case) -> Result<(String, Vec<PlayObs>), String> {
         let mut p = Player::<RecBackend>::new(c.vtx(), c.rate, c.stereo);
         let ctor = REC.with(|r| r.borrow().ctor.clone()).unwrap();
         let mut obs = vec![];
-        for &n in &c.chunks {
+        for (ci, &n) in c.chunks.iter().enumerate() {
             let (before_len, before_samples) = REC.with(|r| {
                 let r = r.borrow();
-                (r.log.len(), r.samples)
+                // whatever the constructor sent to the chip counts into the first call: nothing may reach
+                // the chip before frame 0's registers
+                (if ci == 0 { 0 } else { r.log.len() }, r.samples)
             });
             let mut buf = vec![SENTINEL; n];
             let ret = p.play(&mut buf);
@@ -394,8 +396,20 @@ fn gen_r13(r: &mut Rng) -> u8 {
 }
 
 fn gen_data(r: &mut Rng, frames: usize) -> Vec<u8> {
-    let mut d = Vec::with_capacity(frames * 14 + 13);
-    for _ in 0..frames {
+    let mut d: Vec<u8> = Vec::with_capacity(frames * 14 + 13);
+    let style = r.below(4);
+    for f in 0..frames {
+        // real tunes repeat frames: the same fourteen bytes again (every write must still be made,
+        // a repeated R13 restarts the envelope), or all but one byte the same
+        if f > 0 && style >= 2 && r.chance(1, 2) {
+            let prev: Vec<u8> = d[(f - 1) * 14..f * 14].to_vec();
+            d.extend_from_slice(&prev);
+            if r.chance(1, 3) {
+                let k = r.below(14) as usize;
+                d[f * 14 + k] = r.u8();
+            }
+            continue;
+        }
         for reg in 0..14 {
             d.push(if reg == 13 { gen_r13(r) } else if r.chance(1, 6) { 0xFF } else { r.u8() });
         }
@@ -618,6 +632,47 @@ fn precise_stream(c: &Case, chunks: &[usize]) -> Result<(Vec<u64>, Vec<usize>), 
     .map_err(|_| "panic".to_string())
 }
 
+/// The schedule spec executed on a chip of its own: a fresh `AymPrecise` that receives frame k's registers
+/// (R13 = 0xFF left out) right before output sample k*spf and nothing else.
+fn reference_stream(c: &Case) -> Result<Vec<u64>, String> {
+    catch_unwind(AssertUnwindSafe(|| {
+        let mode = if !c.stereo {
+            AyMode::Mono
+        } else {
+            match c.vs {
+                0 => AyMode::Mono,
+                1 => AyMode::ABC,
+                2 => AyMode::ACB,
+                3 => AyMode::BAC,
+                4 => AyMode::BCA,
+                5 => AyMode::CAB,
+                _ => AyMode::CBA,
+            }
+        };
+        let mut ay = aym::AymPrecise::new(if c.ym { SoundChip::YM } else { SoundChip::AY }, mode, 1_773_400, c.rate);
+        let spf = c.rate / c.pf as usize;
+        let mut out = vec![];
+        for k in 0..c.data.len() / 14 {
+            for idx in 0..14 {
+                let v = c.data[k * 14 + idx];
+                if idx == 13 && v == 0xFF {
+                    continue;
+                }
+                ay.write_register(idx as u8, v);
+            }
+            for _ in 0..spf {
+                let s = ay.next_sample();
+                out.push(s.left.to_bits());
+                if c.stereo {
+                    out.push(s.right.to_bits());
+                }
+            }
+        }
+        out
+    }))
+    .map_err(|_| "panic".to_string())
+}
+
 /// One-shot run vs. the chunked run on the real AymPrecise; total length against the spec.
 fn check_precise(model: &mut Model, c: &Case, mut rep: Option<&mut Report>) -> Option<Disagreement> {
     let spf = c.rate / c.pf as usize;
@@ -658,6 +713,22 @@ fn check_precise(model: &mut Model, c: &Case, mut rep: Option<&mut Report>) -> O
             expected: format!("{}", spec_total),
         });
     }
+    // frame k's registers exactly at sample k*spf, nothing else: the stream of the reference chip
+    if spf > 0 {
+        if let Ok(reference) = reference_stream(c) {
+            if reference != one.0 {
+                let first = reference.iter().zip(one.0.iter()).position(|(a, b)| a != b);
+                return Some(Disagreement {
+                    at: None,
+                    kind: Kind::SpecViolated,
+                    key: "precise.schedule",
+                    what: "sample stream of the PrecisePlayer differs from a fresh AymPrecise that is given frame k's registers at sample k*spf (R13=0xFF left out) and nothing else".into(),
+                    implementation: format!("length {} first difference at slot {:?} (frame {:?})", one.0.len(), first, first.map(|x| x / ch / spf)),
+                    expected: format!("the reference stream ({} slots), bit for bit", reference.len()),
+                });
+            }
+        }
+    }
     // the chunked run offers at least as much; it must produce the same stream
     let offered: usize = c.chunks.iter().map(|n| if c.stereo { n / 2 * 2 } else { *n }).sum();
     let expect_len = offered.min(spec_total);
@@ -696,8 +767,14 @@ fn gen_precise(r: &mut Rng) -> Case {
     let frames = r.range(1, 5) as usize;
     let rate = *r.pick(&[44100usize, 48000, 22050, 32000, 96000, 8000]);
     let pf = *r.pick(&[50u8, 100, 60, 200]);
-    let mut data = vec![];
-    for _ in 0..frames {
+    let mut data: Vec<u8> = vec![];
+    for fi in 0..frames {
+        // a repeated frame (the envelope restarts again when R13 is not 0xFF)
+        if fi > 0 && r.chance(1, 3) {
+            let prev: Vec<u8> = data[(fi - 1) * 14..fi * 14].to_vec();
+            data.extend_from_slice(&prev);
+            continue;
+        }
         // audible settings: tone periods, mixer, volumes / envelope
         let tp = [r.range(20, 600) as u16, r.range(20, 600) as u16, r.range(20, 4000) as u16];
         let f = [
